@@ -94,6 +94,25 @@ CHECKS['C14'] = dict(
          'the box line and return the complete records; coverage of 0..len proved by the solver; writer crash points = prefixes of the real write/seek log.',
     note='Trusted: z3; the file model (readline/seek/tell on a prefix of the complete content), validated against the complete file on every run.',
     design='3/C14', technique='symbolic end-of-file (z3 Int) under the real reader; path-condition coverage query')
+CHECKS['C15'] = dict(
+    text='Every graph on <= 4 atoms (and a solver-chosen subset / all on 5 atoms) is written as topology text with non-contiguous atom numbers, bonds spread over '
+         'three sections and interleaved comment / blank / preprocessor lines, read by the real reader from memory; name, atoms, symmetric renumbered bond sets, '
+         'are_connected (vs breadth-first oracle), copy independence checked on every path; the nesting depth of the connectivity walk must not grow with the '
+         'graph (violations replayed on a 3000-atom chain); CrossHair with symbolic atom numbers and bond endpoints.',
+    note='Trusted: z3 for the enumeration of the symbolic edge bits and its coverage; CrossHair as bounded refuter.', design='3/C15',
+    technique=FORK + ' + CrossHair on the text reader + stack-depth obligation')
+CHECKS['C16'] = dict(
+    text='CrossHair on the real ItpLine / ItpSection with symbolic lines (<= 5 characters) against an independent reference reading; real ItpFile read-write-read-write '
+         'for every sequence of <= 3 (quick) / 4 (thorough) section headers over two names (repeats included) and line templates chosen by symbolic integers; the 16 shipped '
+         'topologies as translator validation of the reference reader.',
+    note='Trusted: the 12-line reference classification of a raw .itp line (kind, tokens, comment); CrossHair results reported as confirmed / no counterexample within budget.',
+    design='3/C16', technique='CrossHair symbolic execution of the real line/section classes + ' + FORK)
+CHECKS['C18'] = dict(
+    text='All operation sequences of length <= 3 (quick) / 4 (thorough) over 10 operations applied to either side of an (original, copy) pair for 7 copy routes, on symbolic '
+         'coordinates / velocities / displacement / rotation: the untouched side keeps its symbolic terms, view assignments write through, and move / move_to / rotate '
+         'satisfy their rigid-body laws as SMT obligations (exact reals).',
+    note='Trusted: z3; elementary rotations generate SO(3); isolation is decided by identity of the symbolic terms.', design='3/C18',
+    technique=SYMX + '; exhaustive operation sequences within the bound')
 NOT_YET = {}
 def main():
     props = [json.loads(l) for l in open(os.path.join(HERE, 'properties.jsonl'))]
